@@ -31,3 +31,20 @@ Example C20_example :
 Proof. vm_compute. repeat split. Qed.
 Example C20_example_edc : edc 3 ex_schema.
 Proof. cbn. repeat (split || constructor || (intro H; cbn in H; intuition discriminate)). Qed.
+
+(* a path with wildcard steps selects one name in several contexts: each selected part is decoded with the declaration of
+   its own path, which is the part of the full decoding *)
+Theorem C20_selected_is_full : forall a d t s k,
+  subtree t a = Some s -> governing d t a = Some k ->
+  decode_selected d t a = subdata (decode (Some d) t) a.
+Proof. exact selected_is_full. Qed.
+Print Assumptions C20_selected_is_full.
+
+(* using the first declaration that the path expression finds on the schema (the code before repo fix e9f3327) is wrong *)
+Theorem C20_first_match_refuted :
+  exists d t p a,
+    matches_path t a p = true /\
+    decode_selected d t a = subdata (decode (Some d) t) a /\
+    decode_selected_first d t p a <> subdata (decode (Some d) t) a.
+Proof. exact first_match_refuted. Qed.
+Print Assumptions C20_first_match_refuted.
